@@ -36,6 +36,8 @@ CONSTANTS
   Acts,        \* enabled run actions
   MinSteps, MaxSteps,
   RationalOnly,\* TRUE: updates/readings must be in the rational fragment
+  BindLeaves,  \* TRUE: symbol leaves may be bound even when something was grown
+  EmitOn,      \* FALSE: invariant checking only, nothing is printed
   NameSeq      \* <<>>: names are drawn freely from SymNames; otherwise taken in this order
                \* (exhaustive configurations, to keep the state space to the programs)
 
@@ -97,14 +99,16 @@ PickName(n) ==
 \* sensors are named one at a time; after the key, its reading names
 PickSensor(k) ==
   /\ phase = "sensors" /\ Len(skeys) < NSens
-  /\ (Len(skeys) = 0 \/ Len(rnames[Len(skeys)]) = shape.sens[Len(skeys)])
+  /\ IF Len(skeys) = 0 THEN TRUE ELSE Len(rnames[Len(skeys)]) = shape.sens[Len(skeys)]
   /\ k \in SensorNames \ RangeOf(skeys)
   /\ skeys' = Append(skeys, k) /\ rnames' = Append(rnames, <<>>)
   /\ UNCHANGED <<phase, shape, prm, names, pts, pool, upd, sens, def, est, steps, last>>
 
 PickReading(r) ==
-  /\ phase = "sensors" /\ Len(skeys) > 0
+  /\ phase = "sensors"
+  /\ Len(skeys) > 0
   /\ LET j == Len(skeys) IN
+     /\ j > 0
      /\ Len(rnames[j]) < shape.sens[j]
      /\ r \in ReadingNames \ RangeOf(rnames[j])
      /\ rnames' = [rnames EXCEPT ![j] = Append(@, r)]
@@ -143,7 +147,7 @@ EndGrow ==
 \* updates are bound in slot order; upd is the sequence of bound trees
 \* (when something was grown, only grown nodes are bound; leaf-only definitions
 \* -- identity updates, constants -- are covered by the MinGrow = 0 configurations)
-Bindable(i) == i \in DOMAIN pool /\ (NGrown > 0 => i > Len(Leaves))
+Bindable(i) == i \in DOMAIN pool /\ (NGrown > 0 => (i > Len(Leaves) \/ (BindLeaves /\ i <= NSyms)))
 BindUpdate(i) ==
   /\ phase = "bind" /\ Len(upd) < shape.nS /\ Bindable(i)
   /\ upd' = Append(upd, pool[i])
@@ -302,7 +306,7 @@ UpdateReject(key, rz) ==
 Scenario == [def |-> def, names |-> names, skeys |-> skeys, rnames |-> rnames, steps |-> steps]
 
 Emit ==
-  /\ phase = "run" /\ Len(steps) >= MinSteps
+  /\ phase = "run" /\ Len(steps) >= MinSteps /\ EmitOn
   /\ PrintT(ToJson(Scenario))
   /\ phase' = "done"
   /\ UNCHANGED <<shape, prm, names, skeys, rnames, pts, pool, upd, sens, def, est, steps, last>>
